@@ -29,6 +29,10 @@ Definition run_st (ud : list (pystr * pystr * pystr)) (c : cfg) (rep : bool) (ca
                        (tbl_pp pps) (tbl_dec decs) t1 t2 (mkM (empty cap) 0) in
   SL [sx_io r; sx_log lg].
 
+Definition run_st_result (ud : list (pystr * pystr * pystr)) (c : cfg) (rep : bool) (cap : nat) (sched : list bool)
+           (pps : list (path * prog Z)) (decs : list (path * Z * list (nat * nat))) (t1 t2 : value) : sx :=
+  match run_st ud c rep cap sched pps decs t1 t2 with SL (r :: _) => SL [r] | x => x end.
+
 (* the cache-less traversal [diff_io_o] (children of a dict in t2's key order) lists the same
    entries as [diff_io] (t1's key order) *)
 Definition check_o (ud : list (pystr * pystr * pystr)) (c : cfg) (rep : bool)
